@@ -484,6 +484,8 @@ def do_op(ctx, aid, oi, table, op):
                 ctx.rec(aid, oi, "sub", ("item", token_of(item), canon(item), lab))
             del chan, item
         return ("ok",)
+    if k in ("cycles_i", "cycles_w"):
+        return _cycles(ctx, aid, oi, table, op)
     if k == "terminate":
         ctx.group.terminate(op[1])
         return ("val", len(ctx.group))
@@ -500,3 +502,85 @@ def _filedata(w):
     if isinstance(w, dict) and "__bytes__" in w:
         return bytes.fromhex(w["__bytes__"])
     return w
+
+
+# ---------------------------------------------------------------------------
+# C18: many open -> transfer -> use -> close/drop cycles, both sides in lockstep
+# ---------------------------------------------------------------------------
+
+VARIANTS = ("close_creator", "close_receiver", "drop_both", "cb_close", "close_both", "drop_creator")
+NESTS = ("bare", "list", "tuple", "dict")
+
+
+def _cycle_plan(seed, n):
+    import random
+    r = random.Random(seed)
+    return [(r.choice("iw"), r.choice(VARIANTS), r.choice(NESTS)) for _ in range(n)]
+
+
+def _nest(c, how):
+    if how == "bare":
+        return c
+    if how == "list":
+        return [0, c]
+    if how == "tuple":
+        return (c, 1)
+    return {"x": {"y": [c]}}
+
+
+def _cycles(ctx, aid, oi, table, op):
+    """["cycles_i"|"cycles_w", via, n, seed, gc_every]  - returns ("cycles", n_done, ids, anomalies)"""
+    me = "i" if op[0] == "cycles_i" else "w"
+    via = _ch(table, op[1])
+    gw = table["__gw__"]
+    plan = _cycle_plan(op[3], op[2])
+    gc_every = op[4] if len(op) > 4 else 0
+    ids = []
+    bad = []
+    got_cb = []
+    done = 0
+    for k, (creator, variant, nest) in enumerate(plan):
+        tok = "cyc%d" % k
+        if creator == me:
+            c = gw.newchannel()
+            ids.append(c.id)
+            if variant == "cb_close":
+                del got_cb[:]
+                c.setcallback(got_cb.append)
+            via.send(("#IT:%s#" % tok, _nest(c, nest)))
+            ack = via.receive()
+            if variant == "cb_close":
+                # the item was sent before the ack on the same connection, callbacks run in wire order
+                item = got_cb[0] if got_cb else None
+            else:
+                try:
+                    item = c.receive(60)
+                except Exception as e:  # noqa: BLE001
+                    item = ("exc", type(e).__name__)
+            if item != ("#IT:%s#" % tok, "on-sub", k):
+                if len(bad) < 5:
+                    bad.append(("wrong-item-on-transferred-channel", k, variant, canon(item)[:80]))
+            if ack != ("ack", k):
+                if len(bad) < 5:
+                    bad.append(("wrong-ack", k, variant, canon(ack)[:80]))
+            if variant in ("close_creator", "cb_close", "close_both"):
+                c.close()
+            del c, item
+        else:
+            item = via.receive()
+            c = find_channel(item)
+            if c is None or token_of(item) != tok:
+                if len(bad) < 5:
+                    bad.append(("no-channel-in-item", k, variant, canon(item)[:80]))
+                via.send(("ack", k))
+                continue
+            c.send(("#IT:%s#" % tok, "on-sub", k))
+            if variant in ("close_receiver", "close_both"):
+                c.close()
+            del c, item
+            via.send(("ack", k))
+        done += 1
+        if gc_every and (k + 1) % gc_every == 0:
+            gc.collect()
+    gc.collect()
+    return ("cycles", done, ids, bad)
